@@ -158,6 +158,15 @@ def run(ctx):
             ctx.ok("R17.1", f"to_datetime_utc[{label}][conversions]",
                    "astimezone only on aware values, replace(tzinfo=UTC) only on naive or UTC values, fromtimestamp with tz=UTC",
                    f.loc())
+        if label == "datetime64":
+            # the epoch seconds come from an explicit cast to second resolution: a datetime64 carries its own unit (s, ms, us, ns,
+            # D, ...), reading its integer value is only meaningful after np.datetime64(x, "s")
+            fts = T.find_ops(body, "dt_datetime_fromtimestamp")
+            oku = bool(fts) and all(fname(x.args[0]) == "datetime64" and x.args[0].args[0] == t and len(x.args[0].args) > 1
+                                    and x.args[0].args[1] == Str("s") for x in fts)
+            ctx.expect(oku, "R17.1", "to_datetime_utc[datetime64][seconds]",
+                       "the time stamp is np.datetime64(x, 's') read as a number: the unit of the input does not matter", f.loc(),
+                       derived=fts[0].args[0] if fts else "no fromtimestamp", required='datetime64(time, "s")')
         if label == "str":
             # trailing Z handling
             isos = T.find_ops(body, "dt_datetime_fromisoformat")
@@ -280,7 +289,7 @@ def run(ctx):
               "date decoded from the first argument plus time decoded from the second", interp=it)
     envres.check_ext_used(ctx, it, "R17.5", "tools.time")
     ctx.absorb(it)
-    ctx.require_count("R17.1", 17)
+    ctx.require_count("R17.1", 18)
     ctx.require_count("R17.2", 8)
     ctx.require_count("R17.3", 3)
     ctx.require_count("R17.4", 6)
